@@ -1,7 +1,8 @@
 (* C03 — the statements in their final form (restated in Properties/C03.v). *)
 From Coq Require Import List ZArith NArith Bool Reals Lra Lia.
-From T4V Require Import Base.Scalar C03.Vec C03.Model C03.Spec C03.VecFacts
-  C03.ProofsPlanes C03.ProofsQuad C03.ProofsArb C03.ProofsExpand.
+From T4V Require Import Base.Scalar C03.Vec C03.Model C03.Convert C03.Spec C03.SpecT4
+  C03.VecFacts C03.WfFacts C03.ProofsPlanes C03.ProofsQuad C03.ProofsArb C03.ProofsExpand
+  C03.ProofsConvert C03.ProofsWritten.
 Import ListNotations.
 Open Scope R_scope.
 
@@ -260,4 +261,122 @@ Proof.
   assert (P2 : dot a1 (rec10_minor h a1 b) = 0).
   { unfold rec10_minor. rewrite dot_vmul_r, O2. ring. }
   rewrite (rec_inside_facets v h a1 (rec10_minor h a1 b) p H1 P1 P2 Hh Ha1 Ha2). exact I.
+Qed.
+
+(* ================================================================== *)
+(* What is WRITTEN: body function, then every entry through            *)
+(* to_surface_mcnp / transformation / conversion_surface_params.       *)
+(* tr = None: the body as it stands; Some tr: a TR on the surface card, *)
+(* or the TRCL / FILL transformation applied by pot_transform.         *)
+(* ================================================================== *)
+Notation written tr b p d fs :=
+  (exists ts, body_t4 RS tr b p d = Ok ts /\ Forall2 (same_t4_facet (frame_of tr)) ts fs).
+
+Ltac by_full L := intros; apply written_from_facets; [assumption | apply L; assumption].
+
+Theorem box_written tr (v a1 a2 a3 : pt) :
+  tr_ok tr -> box_admissible a1 a2 a3 ->
+  written tr BOX (pl v ++ pl a1 ++ pl a2 ++ pl a3) [] (box_facets v a1 a2 a3).
+Proof. by_full box_facets_ok_full. Qed.
+
+Theorem box_general_written tr (v a1 a2 a3 : pt) :
+  tr_ok tr -> det a1 a2 a3 <> 0 ->
+  written tr BOX (pl v ++ pl a1 ++ pl a2 ++ pl a3) [] (para_facets v a1 a2 a3).
+Proof. by_full box_general_facets_full. Qed.
+
+Theorem rpp_written tr (x0 x1 y0 y1 z0 z1 : R) :
+  tr_ok tr -> written tr RPP [x0; x1; y0; y1; z0; z1] [] (rpp_facets x0 x1 y0 y1 z0 z1).
+Proof. intros. apply written_from_facets; [assumption | apply rpp_facets_ok_full]. Qed.
+
+Theorem sph_written tr (c : pt) (r : R) :
+  tr_ok tr -> written tr SPH (pl c ++ [r]) [] (sph_facets c r).
+Proof. intros. apply written_from_facets; [assumption | apply sph_facets_ok_full]. Qed.
+
+Theorem rcc_written tr (v h : pt) (r : R) :
+  tr_ok tr -> h <> (0, 0, 0) -> written tr RCC (pl v ++ pl h ++ [r]) [] (rcc_facets v h r).
+Proof. by_full rcc_facets_ok_full. Qed.
+
+Theorem rhp15_written tr (v h r s t : pt) :
+  tr_ok tr -> h <> (0, 0, 0) -> r <> (0, 0, 0) -> s <> (0, 0, 0) -> t <> (0, 0, 0) ->
+  written tr RHP (pl v ++ pl h ++ pl r ++ pl s ++ pl t) [] (rhp_facets v h r s t).
+Proof.
+  intros Htr Hh Hr Hs Ht. apply written_from_facets; [assumption|].
+  destruct (rhp15_facets_ok v h r s t) as (es & E & F).
+  exists es. split; [exact E|]. split; [|exact F]. now apply (rhp15_wf v h r s t).
+Qed.
+
+Theorem rhp9_written tr (v h r : pt) :
+  tr_ok tr -> h <> (0, 0, 0) -> dot r h = 0 -> r <> (0, 0, 0) ->
+  written tr RHP (pl v ++ pl h ++ pl r) [] (rhp_regular_facets v h r).
+Proof.
+  intros Htr Hh Hd Hr. apply written_from_facets; [assumption|].
+  destruct (rhp9_facets_ok v h r Hh Hd) as (es & E & F).
+  exists es. split; [exact E|]. split; [|exact F]. now apply (rhp9_wf v h r).
+Qed.
+
+Theorem rec12_written tr (v h a1 a2 : pt) :
+  tr_ok tr -> h <> (0, 0, 0) -> a1 <> (0, 0, 0) -> a2 <> (0, 0, 0) ->
+  written tr REC (pl v ++ pl h ++ pl a1 ++ pl a2) [] (rec_facets v h a1 a2).
+Proof. by_full rec12_facets_ok_full. Qed.
+
+Theorem rec10_written tr (v h a1 : pt) (b : R) :
+  tr_ok tr -> cross h a1 <> (0, 0, 0) -> b <> 0 ->
+  written tr REC (pl v ++ pl h ++ pl a1 ++ [b]) [] (rec_facets v h a1 (rec10_minor h a1 b)).
+Proof. by_full rec10_facets_ok_full. Qed.
+
+Theorem trc_written tr (v h : pt) (r0 r1 : R) :
+  tr_ok tr -> h <> (0, 0, 0) -> r0 <> r1 ->
+  written tr TRC (pl v ++ pl h ++ [r0; r1]) [] (trc_facets v h r0 r1).
+Proof. by_full trc_facets_ok_full. Qed.
+
+Theorem ell_axis_written tr (c a : pt) (mb : R) :
+  tr_ok tr -> a <> (0, 0, 0) -> mb < 0 ->
+  written tr ELL (pl c ++ pl a ++ [mb]) [] (ell_axis_facets c a mb).
+Proof. by_full ell_axis_facets_ok_full. Qed.
+
+Theorem ell_foci_written tr (f1 f2 : pt) (L : R) :
+  tr_ok tr -> 0 < L -> vsub f1 (vmul (1 / 2) (vadd f1 f2)) <> (0, 0, 0) ->
+  norm (vsub f1 (vmul (1 / 2) (vadd f1 f2))) <> 2 * L ->
+  written tr ELL (pl f1 ++ pl f2 ++ [L]) [] (ell_foci_facets f1 f2 L).
+Proof.
+  intros. apply written_from_facets; [assumption|]. now apply ell_foci_facets_ok_full.
+Qed.
+
+Theorem wed_written tr (v a b h : pt) :
+  tr_ok tr -> wed_admissible a b h ->
+  written tr WED (pl v ++ pl a ++ pl b ++ pl h) [] (wed_facets v a b h).
+Proof. by_full wed_facets_ok_full. Qed.
+
+Theorem arb_written tr (V : list pt) (descr : list N) :
+  tr_ok tr -> List.length V = 8%nat -> List.length descr = 6%nat ->
+  (1 <= arb_nvert descr <= 8)%nat ->
+  Forall (facet_admissible (firstn (arb_nvert descr) V)
+                           (centroid_of (firstn (arb_nvert descr) V)))
+         (arb_facet_lists descr) ->
+  written tr ARB (flat V) descr
+          (arb_facets (firstn (arb_nvert descr) V) (arb_facet_lists descr)).
+Proof.
+  intros. apply written_from_facets; [assumption|]. now apply arb_facets_ok_full.
+Qed.
+
+(* end to end for the BOX: the points on the MINUS side of all six written
+   surfaces (side taken into account) are the box, moved *)
+Theorem box_written_solid tr (v a1 a2 a3 : pt) :
+  tr_ok tr -> box_admissible a1 a2 a3 ->
+  forall ts, body_t4 RS tr BOX (pl v ++ pl a1 ++ pl a2 ++ pl a3) [] = Ok ts ->
+  forall p, t4_all_negative ts p <-> box_inside v a1 a2 a3 (frame_of tr p).
+Proof.
+  intros Htr Adm ts E p. destruct (box_written tr v a1 a2 a3 Htr Adm) as (ts' & E' & F).
+  rewrite E in E'. injection E' as <-.
+  rewrite (proj1 (t4_facets_inside _ ts _ p F)). symmetry. now apply box_inside_facets.
+Qed.
+
+Theorem wed_written_solid tr (v a b h : pt) :
+  tr_ok tr -> wed_admissible a b h ->
+  forall ts, body_t4 RS tr WED (pl v ++ pl a ++ pl b ++ pl h) [] = Ok ts ->
+  forall p, t4_all_negative ts p <-> wed_inside v a b h (frame_of tr p).
+Proof.
+  intros Htr Adm ts E p. destruct (wed_written tr v a b h Htr Adm) as (ts' & E' & F).
+  rewrite E in E'. injection E' as <-.
+  rewrite (proj1 (t4_facets_inside _ ts _ p F)). symmetry. now apply wed_inside_facets.
 Qed.
